@@ -20,8 +20,8 @@ static rtosc_arg_val_t scalar(const J &x, Store &st) {
     switch (t) {
         case 'i': case 'c': case 'r': a.val.i = (int)x["v"].num(); break;
         case 'h': a.val.h = x["v"].num() * (1LL << 31); break;          // 64-bit values: the abstract integer v stands for v * 2^31
-        case 'f': a.val.f = (float)x["v"].num() / 2.0f; break;
-        case 'd': a.val.d = (double)x["v"].num() / 2.0; break;
+        case 'f': a.val.f = std::fabs(x["v"].num()) >= 2000000 ? (x["v"].num() > 0 ? INFINITY : -INFINITY) : (float)x["v"].num() / 2.0f; break;      // +-2000000 stands for +-infinity
+        case 'd': a.val.d = std::fabs(x["v"].num()) >= 2000000 ? (x["v"].num() > 0 ? INFINITY : -INFINITY) : (double)x["v"].num() / 2.0; break;
         case 't': a.val.t = x["v"].num() == 1 ? 1 : (uint64_t)x["v"].num() << 33; break;   // 1 = immediately; otherwise v * 2^33
         case 's': case 'S': st.strs.push_back(x["v"].text()); a.val.s = st.strs.back().c_str(); break;
         case 'b': { st.blobs.push_back(x["v"].bytes()); a.val.b.len = (int)st.blobs.back().size(); static uint8_t none[1]; a.val.b.data = st.blobs.back().empty() ? none : st.blobs.back().data(); break; }   // an empty blob still has a valid pointer
@@ -55,8 +55,8 @@ static void log_val(JW &w, const rtosc_arg_val_t *v) {
     switch (v->type) {
         case 'i': case 'c': case 'r': w.num(v->val.i); break;
         case 'h': w.num(v->val.h / (1LL << 31)); break;
-        case 'f': w.num((long long)llround(v->val.f * 2.0)); break;
-        case 'd': w.num((long long)llround(v->val.d * 2.0)); break;
+        case 'f': w.num(std::isinf(v->val.f) ? (v->val.f > 0 ? 2000000LL : -2000000LL) : (long long)llround(v->val.f * 2.0)); break;
+        case 'd': w.num(std::isinf(v->val.d) ? (v->val.d > 0 ? 2000000LL : -2000000LL) : (long long)llround(v->val.d * 2.0)); break;
         case 't': w.num(v->val.t == 1 ? 1 : (long long)(v->val.t >> 33)); break;
         case 's': case 'S': w.bytes((const uint8_t *)v->val.s, v->val.s ? strlen(v->val.s) : 0); break;
         case 'b': w.bytes(v->val.b.data, v->val.b.len > 0 ? v->val.b.len : 0); break;
